@@ -8,6 +8,9 @@ theorem absSite_bounds (N : Nat) (to : Dir) (m : Nat) : m - 1 ≤ absSite N to m
 theorem absSite_last_lt (N m : Nat) (h : m < N) : absSite N .last m = m := by
   unfold absSite; simp; omega
 
+theorem absSite_last_ge (N m : Nat) (h : N ≤ m) : absSite N .last m = m - 1 := by
+  unfold absSite; simp [h]
+
 theorem absSite_first_pos (N m : Nat) (h : 1 ≤ m) : absSite N .first m = m - 1 := by
   unfold absSite; simp [h]
 
@@ -201,5 +204,549 @@ theorem dmrgTrace_ok (N : Nat) (pre : Bool) (hN : 1 ≤ N) (ms : List Method) :
     Tr N pre (S N pre 1 N 1 0 none) (dmrgTrace N ms) (B N pre) := by
   unfold dmrgTrace
   exact Tr.append (Tr.append (setup_ok N pre) (meas_ok N pre)) (dmrgSweeps_ok N pre hN ms)
+
+/-! ### TDVP -/
+
+theorem updA_ok (N : Nat) (pre : Bool) (n p : Nat) (s : Sgn) (h1 : n < p) (h2 : p ≤ n + 1) (hN : n + 1 ≤ N) :
+    Tr N pre (I N pre p) (updA n s) (I N pre p) := by
+  unfold updA
+  refine Tr.cons (T_mA n s) ?_
+  refine Tr.cons (T_h1 none n (by omega) (by omega) (by omega) hN) ?_
+  refine Tr.cons (T_w1 n (a' := p) (b' := p) (ad' := p) (bd' := p) (by omega) (by omega) (by omega) (by omega)) ?_
+  exact Tr.nil (fun st h => h)
+
+theorem updC_ok (N : Nat) (pre : Bool) {a b ad bd : Nat} (m : Nat) (ha : m < a) (hb : b ≤ m) (hN : m ≤ N) :
+    Tr N pre (S N pre a b ad bd (some m)) (updC N m) (S N pre a b ad bd (some m)) := by
+  unfold updC
+  split
+  · exact Tr.cons (T_mC m .plus) (Tr.nil (fun st h => h))
+  · exact Tr.cons (T_mC m .plus) (Tr.cons (T_h0 (some m) m ha hb hN) (Tr.cons (T_wC m) (Tr.nil (fun st h => h))))
+
+theorem tdvp1_last (N : Nat) (pre : Bool) (n : Nat) (hn : n < N) :
+    Tr N pre (I N pre (n + 1)) (tdvp1Step N .last n) (I N pre (min (n + 2) N)) := by
+  have hs := absSite_bounds N .last (n + 1)
+  have hs2 : min (n + 2) N ≤ absSite N .last (n + 1) + 1 := by
+    rcases Nat.lt_or_ge (n + 1) N with e | e
+    · rw [absSite_last_lt N (n + 1) e]; omega
+    · omega
+  have hs3 : absSite N .last (n + 1) + 1 ≤ min (n + 2) N := by
+    rcases Nat.lt_or_ge (n + 1) N with e | e
+    · rw [absSite_last_lt N (n + 1) e]; omega
+    · rw [absSite_last_ge N (n + 1) e]; omega
+  simp only [tdvp1Step, bondAfter]
+  have t1 := updA_ok N pre n (n + 1) .minus (by omega) (by omega) (by omega)
+  have t2 : Tr N pre (I N pre (n + 1)) [.orth n .last, .clr [n], .upd n .last]
+      (S N pre (n + 2) (n + 1) (n + 2) (n + 1) (some (n + 1))) := by
+    refine Tr.cons (T_orth n .last (a' := n + 1) (b' := n + 1) (ad' := n + 1) (bd' := n + 1) (by omega) (by omega) (by omega) (by omega)) ?_
+    refine Tr.cons (T_clr1 (some (bondAfter .last n)) n (ad' := n + 2) (bd' := n + 1) (by omega) (by omega) hn (by omega) (by omega)) ?_
+    refine Tr.cons (T_updLast (some (bondAfter .last n)) n (a' := n + 2) (by omega) (by omega) (by omega)) ?_
+    exact Tr.nil (fun st h => h)
+  have t3 : Tr N pre (S N pre (n + 2) (n + 1) (n + 2) (n + 1) (some (n + 1))) (updC N (n + 1)) _ :=
+    updC_ok N pre (n + 1) (by omega) (by omega) (by omega)
+  have t4 : Tr N pre (S N pre (n + 2) (n + 1) (n + 2) (n + 1) (some (n + 1))) [.abs .last] (I N pre (min (n + 2) N)) :=
+    Tr.cons (T_abs .last (n + 1) (by omega) (by omega) (by omega) (by omega)) (Tr.nil (fun st h => h))
+  exact Tr.append (Tr.append (Tr.append t1 t2) t3) t4
+
+theorem tdvp1_first (N : Nat) (pre : Bool) (j : Nat) (hj : j < N) :
+    Tr N pre (I N pre (j + 1)) (tdvp1Step N .first j) (I N pre (max j 1)) := by
+  have hs := absSite_bounds N .first j
+  have hs2 : 1 ≤ j → absSite N .first j = j - 1 := absSite_first_pos N j
+  have hs3 : absSite N .first j + 1 ≤ max j 1 := by
+    rcases Nat.lt_or_ge 0 j with e | e
+    · rw [hs2 e]; omega
+    · have : j = 0 := by omega
+      subst this; simp [absSite]
+  simp only [tdvp1Step, bondAfter]
+  have t1 := updA_ok N pre j (j + 1) .minus (by omega) (by omega) (by omega)
+  have t2 : Tr N pre (I N pre (j + 1)) [.orth j .first, .clr [j], .upd j .first]
+      (S N pre (j + 1) j (j + 1) j (some j)) := by
+    refine Tr.cons (T_orth j .first (a' := j + 1) (b' := j + 1) (ad' := j + 1) (bd' := j + 1) (by omega) (by omega) (by omega) (by omega)) ?_
+    refine Tr.cons (T_clr1 (some (bondAfter .first j)) j (ad' := j + 1) (bd' := j) (by omega) (by omega) hj (by omega) (by omega)) ?_
+    refine Tr.cons (T_updFirst (some (bondAfter .first j)) j (b' := j) (by omega) (by omega) hj (by omega)) ?_
+    exact Tr.nil (fun st h => h)
+  have t3 : Tr N pre (S N pre (j + 1) j (j + 1) j (some j)) (updC N j) _ :=
+    updC_ok N pre j (by omega) (by omega) (by omega)
+  have t4 : Tr N pre (S N pre (j + 1) j (j + 1) j (some j)) [.abs .first] (I N pre (max j 1)) :=
+    Tr.cons (T_abs .first j (by omega) (by omega) (by omega) (by omega)) (Tr.nil (fun st h => h))
+  exact Tr.append (Tr.append (Tr.append t1 t2) t3) t4
+
+theorem tdvp1Sweep_ok (N : Nat) (pre : Bool) (hN : 1 ≤ N) : Tr N pre (B N pre) (tdvp1Sweep N) (B N pre) := by
+  unfold tdvp1Sweep
+  have up : Tr N pre (I N pre 1) ((List.range N).flatMap (tdvp1Step N .last)) (I N pre N) := by
+    have := Tr.loopUp (N := N) (pre := pre) (fun i => I N pre (min (i + 1) N)) (tdvp1Step N .last) N 0
+      (fun i _ hi => by
+        have h := tdvp1_last N pre i (by omega)
+        have e : min (i + 1) N = i + 1 := by omega
+        have e' : i + 1 + 1 = i + 2 := by omega
+        simp only [e, e']; exact h)
+    rw [← List.range_eq_range'] at this
+    have e1 : min (0 + 1) N = 1 := by omega
+    have e2 : min (0 + N + 1) N = N := by omega
+    simp only [e1, e2] at this
+    exact this
+  have down : Tr N pre (I N pre N) ((List.range N).reverse.flatMap (tdvp1Step N .first)) (I N pre 1) := by
+    have := Tr.loopDown (N := N) (pre := pre) (fun i => I N pre (max i 1)) (tdvp1Step N .first) N
+      (fun i hi => by
+        have h := tdvp1_first N pre i hi
+        have e : max (i + 1) 1 = i + 1 := by omega
+        simp only [e]; exact h)
+    have e1 : max N 1 = N := by omega
+    have e2 : max 0 1 = 1 := by omega
+    simp only [e1, e2] at this
+    exact this
+  have last : Tr N pre (I N pre 1) [.upd 0 .first] (B N pre) :=
+    Tr.cons (T_updFirst none 0 (b' := 0) (by omega) (by omega) (by omega) (by omega)) (Tr.nil (fun st h => h))
+  exact Tr.append (Tr.append (up.weaken (fun st h => B_to_I1 h) (fun st h => h)) down) last
+
+/-- forward two-site update on `(n, n+1)` followed by the environment refresh (shared by '2site' and '12site');
+the dropped derived key `DL (n+2)` is recorded as absent (`ad = n + 3`) -/
+theorem aaLast_ok (N : Nat) (pre : Bool) (n : Nat) (hn : n + 1 < N) :
+    Tr N pre (I N pre (n + 1)) (updAA n .minus ++ [.abs .last, .clr [n, n + 1], .upd n .last])
+      (S N pre (n + 2) (n + 2) (n + 3) (n + 2) none) := by
+  have hs := absSite_bounds N .last (n + 1)
+  simp only [updAA, List.cons_append, List.nil_append]
+  refine Tr.cons (T_mAA n .minus) ?_
+  refine Tr.cons (T_h2 none n (by omega) (by omega) (by omega) (by omega) (by omega)) ?_
+  refine Tr.cons (T_w2 n (a' := n + 1) (b' := n + 2) (ad' := n + 1) (bd' := n + 2) (by omega) (by omega) (by omega) (by omega)) ?_
+  refine Tr.cons (T_abs .last (n + 1) (a' := n + 1) (b' := n + 2) (ad' := n + 1) (bd' := n + 2)
+    (by omega) (by omega) (by omega) (by omega)) ?_
+  refine Tr.cons (T_clr2 none n (ad' := n + 3) (bd' := n + 2) (by omega) (by omega) hn (by omega) (by omega)) ?_
+  refine Tr.cons (T_updLast none n (a' := n + 2) (by omega) (by omega) (by omega)) ?_
+  exact Tr.nil (fun st h => h)
+
+theorem aaFirst_ok (N : Nat) (pre : Bool) (n : Nat) (hn : n + 1 < N) :
+    Tr N pre (I N pre (n + 2)) (updAA n .minus ++ [.abs .first, .clr [n, n + 1], .upd (n + 1) .first])
+      (S N pre (n + 1) (n + 1) (n + 1) n none) := by
+  have hs := absSite_bounds N .first (n + 1)
+  simp only [updAA, List.cons_append, List.nil_append]
+  refine Tr.cons (T_mAA n .minus) ?_
+  refine Tr.cons (T_h2 none n (by omega) (by omega) (by omega) (by omega) (by omega)) ?_
+  refine Tr.cons (T_w2 n (a' := n + 1) (b' := n + 2) (ad' := n + 1) (bd' := n + 2) (by omega) (by omega) (by omega) (by omega)) ?_
+  refine Tr.cons (T_abs .first (n + 1) (a' := n + 1) (b' := n + 2) (ad' := n + 1) (bd' := n + 2)
+    (by omega) (by omega) (by omega) (by omega)) ?_
+  refine Tr.cons (T_clr2 none n (ad' := n + 1) (bd' := n) (by omega) (by omega) hn (by omega) (by omega)) ?_
+  refine Tr.cons (T_updFirst none (n + 1) (b' := n + 1) (by omega) (by omega) hn (by omega)) ?_
+  exact Tr.nil (fun st h => h)
+
+theorem tdvp2_last (N : Nat) (pre : Bool) (n : Nat) (hn : n + 1 < N) :
+    Tr N pre (I N pre (n + 1)) (tdvp2Step N .last n) (I N pre (n + 2)) := by
+  simp only [tdvp2Step, Nat.add_sub_cancel]
+  have t1 := (aaLast_ok N pre n hn).weaken (fun st h => h)
+    (fun st h => (S_mono h (by omega) (by omega) (by omega) (by omega) : I N pre (n + 2) st))
+  split
+  · exact Tr.append t1 (updA_ok N pre (n + 1) (n + 2) .plus (by omega) (by omega) (by omega))
+  · simpa using t1
+
+theorem tdvp2_first (N : Nat) (pre : Bool) (n : Nat) (hn : n + 1 < N) :
+    Tr N pre (I N pre (n + 2)) (tdvp2Step N .first n) (I N pre (n + 1)) := by
+  simp only [tdvp2Step, Nat.add_zero, Nat.sub_zero]
+  have t1 := (aaFirst_ok N pre n hn).weaken (fun st h => h)
+    (fun st h => (S_mono h (by omega) (by omega) (by omega) (by omega) : I N pre (n + 1) st))
+  split
+  · exact Tr.append t1 (updA_ok N pre n (n + 1) .plus (by omega) (by omega) (by omega))
+  · simpa using t1
+
+theorem closeSweep_ok (N : Nat) (pre : Bool) (hN : 1 ≤ N) : Tr N pre (I N pre 1) [.clr [0], .upd 0 .first] (B N pre) := by
+  refine Tr.cons (T_clr1 none 0 (ad' := 1) (bd' := 1) (by omega) (by omega) (by omega) (by omega) (by omega)) ?_
+  refine Tr.cons (T_updFirst none 0 (b' := 0) (by omega) (by omega) (by omega) (by omega)) ?_
+  exact Tr.nil (fun st h => h)
+
+theorem tdvp2Sweep_ok (N : Nat) (pre : Bool) (hN : 1 ≤ N) : Tr N pre (B N pre) (tdvp2Sweep N) (B N pre) := by
+  unfold tdvp2Sweep
+  have up : Tr N pre (I N pre 1) ((List.range (N - 1)).flatMap (tdvp2Step N .last)) (I N pre N) := by
+    have := Tr.loopUp (N := N) (pre := pre) (fun i => I N pre (i + 1)) (tdvp2Step N .last) (N - 1) 0
+      (fun i _ hi => tdvp2_last N pre i (by omega))
+    rw [← List.range_eq_range'] at this
+    have e : 0 + (N - 1) + 1 = N := by omega
+    simp only [e] at this
+    simpa using this
+  have down : Tr N pre (I N pre N) ((List.range (N - 1)).reverse.flatMap (tdvp2Step N .first)) (I N pre 1) := by
+    have := Tr.loopDown (N := N) (pre := pre) (fun i => I N pre (i + 1)) (tdvp2Step N .first) (N - 1)
+      (fun i hi => tdvp2_first N pre i (by omega))
+    have e : N - 1 + 1 = N := by omega
+    simp only [e] at this
+    simpa using this
+  exact Tr.append (Tr.append (up.weaken (fun st h => B_to_I1 h) (fun st h => h)) down) (closeSweep_ok N pre hN)
+
+/-! ### '12site': a dropped derived key stays absent while only sites are rewritten -/
+
+/-- `P` together with the absence of one key -/
+def WithAbs (P : St → Prop) (k : Key) : St → Prop := fun st => P st ∧ st.F k = none
+
+theorem Ev1.frame {N pre} {P Q : St → Prop} {e : Ev} (h : Ev1 N pre P e Q) (k : Key)
+    (hk : ∀ st, P st → st.F k = none → (next N pre st e).F k = none) :
+    Ev1 N pre (WithAbs P k) e (WithAbs Q k) :=
+  fun st ⟨hp, ha⟩ => ⟨(h st hp).1, (h st hp).2, hk st hp ha⟩
+
+theorem Tr.ofEv {N pre} {P Q : St → Prop} {e : Ev} (h : Ev1 N pre P e Q) : Tr N pre P [e] Q :=
+  Tr.cons h (Tr.nil (fun st hq => hq))
+
+section
+variable {N : Nat} {pre : Bool} {a b ad bd : Nat}
+
+theorem T_clr2_absL (c : Option Nat) (n : Nat) {ad' bd' : Nat} (h1 : a ≤ n + 1) (h2 : n + 1 < b) (h3 : n + 1 < N)
+    (hl : ad' ≤ ad ∨ (n + 1 ≤ ad ∧ ad' ≤ n + 3)) (hr : bd ≤ bd' ∨ (bd ≤ n + 2 ∧ n ≤ bd')) :
+    Ev1 N pre (S N pre a b ad bd c) (.clr [n, n + 1]) (WithAbs (S N pre a b ad' bd' c) (.DL (n + 2))) := by
+  intro st hS
+  obtain ⟨ok, hq⟩ := T_clr2 c n h1 h2 h3 hl hr st hS
+  refine ⟨ok, hq, ?_⟩
+  obtain ⟨_, _, _, hF⟩ := E_clr N pre st [n, n + 1]
+  rw [hF]
+  cases pre with
+  | true => simp [clrKeys]
+  | false =>
+    split
+    · rfl
+    · exact (hS.1.nod rfl (n + 2)).1
+
+theorem T_clr2_absR (c : Option Nat) (n : Nat) {ad' bd' : Nat} (h1 : a ≤ n + 1) (h2 : n + 1 < b) (h3 : n + 1 < N)
+    (hl : ad' ≤ ad ∨ (n + 1 ≤ ad ∧ ad' ≤ n + 3)) (hr : bd ≤ bd' ∨ (bd ≤ n + 2 ∧ n ≤ bd')) :
+    Ev1 N pre (S N pre a b ad bd c) (.clr [n, n + 1]) (WithAbs (S N pre a b ad' bd' c) (.DR n)) := by
+  intro st hS
+  obtain ⟨ok, hq⟩ := T_clr2 c n h1 h2 h3 hl hr st hS
+  refine ⟨ok, hq, ?_⟩
+  obtain ⟨_, _, _, hF⟩ := E_clr N pre st [n, n + 1]
+  rw [hF]
+  cases pre with
+  | true => simp [clrKeys]
+  | false =>
+    split
+    · rfl
+    · exact (hS.1.nod rfl n).2
+
+theorem T_updLast_abs (c : Option Nat) (n : Nat) {a' : Nat} (k : Key) (hk : k ≠ .L (n + 1)) (hn : n < a) (hnd : n < ad)
+    (ha' : a' ≤ max a (n + 2)) :
+    Ev1 N pre (WithAbs (S N pre a b ad bd c) k) (.upd n .last) (WithAbs (S N pre a' b ad bd c) k) := by
+  apply (T_updLast c n hn hnd ha').frame k
+  intro st hS ha
+  obtain ⟨_, _, _, hF⟩ := E_updLast hS.1 n hn hnd
+  rw [hF, setF_other _ _ _ _ hk]; exact ha
+
+theorem T_updFirst_abs (c : Option Nat) (n : Nat) {b' : Nat} (k : Key) (hk : k ≠ .R n) (hn : b ≤ n + 1) (hnd : bd ≤ n + 1)
+    (hN : n < N) (hb' : min b n ≤ b') :
+    Ev1 N pre (WithAbs (S N pre a b ad bd c) k) (.upd n .first) (WithAbs (S N pre a b' ad bd c) k) := by
+  apply (T_updFirst c n hn hnd hN hb').frame k
+  intro st hS ha
+  obtain ⟨_, _, _, hF⟩ := E_updFirst hS.1 n hn hnd hN
+  rw [hF, setF_other _ _ _ _ hk]; exact ha
+
+theorem T_enl_abs (c : Option Nat) (m : Nat) (r : Bool) (k : Key) :
+    Ev1 N pre (WithAbs (S N pre a b ad bd c) k) (.enl m r) (WithAbs (S N pre a b ad bd c) k) := by
+  apply (T_enl c m r).frame k
+  intro st _ ha
+  have : next N pre st (.enl m r) = st := rfl
+  rw [this]; exact ha
+
+theorem T_orth_abs (n : Nat) (to : Dir) (k : Key) {a' b' ad' bd' : Nat} (h1 : a' ≤ min a (n + 1)) (h2 : max b (n + 1) ≤ b')
+    (h3 : ad' ≤ min ad (n + 1)) (h4 : max bd (n + 1) ≤ bd') :
+    Ev1 N pre (WithAbs (S N pre a b ad bd none) k) (.orth n to)
+      (WithAbs (S N pre a' b' ad' bd' (some (bondAfter to n))) k) := by
+  apply (T_orth n to h1 h2 h3 h4).frame k
+  intro st _ ha
+  rw [(E_orth N pre st n to).2.2.1]; exact ha
+
+theorem absL_extend {c : Option Nat} {st : St} (h : WithAbs (S N pre a b ad bd c) (.DL ad) st) :
+    S N pre a b (ad + 1) bd c st := by
+  obtain ⟨⟨hg, hc⟩, ha⟩ := h
+  refine ⟨hg.extend (bd' := bd) ?_ ?_, hc⟩
+  · intro m h1 h2; have : m = ad := by omega
+    subst this; exact ha
+  · intro m h1 h2; omega
+
+theorem absR_extend {c : Option Nat} {st : St} {m : Nat} (h : WithAbs (S N pre a b ad bd c) (.DR m) st) (hm : m + 1 = bd) :
+    S N pre a b ad m c st := by
+  obtain ⟨⟨hg, hc⟩, ha⟩ := h
+  refine ⟨hg.extend (ad' := ad) ?_ ?_, hc⟩
+  · intro k h1 h2; omega
+  · intro k h1 h2; have : k = m := by omega
+    subst this; exact ha
+
+end
+
+theorem aaLastZ_ok (N : Nat) (pre : Bool) (n m : Nat) (e : Bool) (hn : n + 1 < N) :
+    Tr N pre (I N pre (n + 1)) (updAA n .minus ++ [.abs .last, .clr [n, n + 1], .upd n .last, .enl m e])
+      (WithAbs (I N pre (n + 2)) (.DL (n + 2))) := by
+  have hs := absSite_bounds N .last (n + 1)
+  simp only [updAA, List.cons_append, List.nil_append]
+  refine Tr.cons (T_mAA n .minus) ?_
+  refine Tr.cons (T_h2 none n (by omega) (by omega) (by omega) (by omega) (by omega)) ?_
+  refine Tr.cons (T_w2 n (a' := n + 1) (b' := n + 2) (ad' := n + 1) (bd' := n + 2) (by omega) (by omega) (by omega) (by omega)) ?_
+  refine Tr.cons (T_abs .last (n + 1) (a' := n + 1) (b' := n + 2) (ad' := n + 1) (bd' := n + 2)
+    (by omega) (by omega) (by omega) (by omega)) ?_
+  refine Tr.cons (T_clr2_absL none n (ad' := n + 2) (bd' := n + 2) (by omega) (by omega) hn (by omega) (by omega)) ?_
+  refine Tr.cons (T_updLast_abs none n (a' := n + 2) (.DL (n + 2)) (by simp) (by omega) (by omega) (by omega)) ?_
+  refine Tr.cons (T_enl_abs none m e (.DL (n + 2))) ?_
+  exact Tr.nil (fun st h => h)
+
+theorem aaFirstZ_ok (N : Nat) (pre : Bool) (n m : Nat) (e : Bool) (hn : n + 1 < N) :
+    Tr N pre (I N pre (n + 2)) (updAA n .minus ++ [.abs .first, .clr [n, n + 1], .upd (n + 1) .first, .enl m e])
+      (WithAbs (I N pre (n + 1)) (.DR n)) := by
+  have hs := absSite_bounds N .first (n + 1)
+  simp only [updAA, List.cons_append, List.nil_append]
+  refine Tr.cons (T_mAA n .minus) ?_
+  refine Tr.cons (T_h2 none n (by omega) (by omega) (by omega) (by omega) (by omega)) ?_
+  refine Tr.cons (T_w2 n (a' := n + 1) (b' := n + 2) (ad' := n + 1) (bd' := n + 2) (by omega) (by omega) (by omega) (by omega)) ?_
+  refine Tr.cons (T_abs .first (n + 1) (a' := n + 1) (b' := n + 2) (ad' := n + 1) (bd' := n + 2)
+    (by omega) (by omega) (by omega) (by omega)) ?_
+  refine Tr.cons (T_clr2_absR none n (ad' := n + 1) (bd' := n + 1) (by omega) (by omega) hn (by omega) (by omega)) ?_
+  refine Tr.cons (T_updFirst_abs none (n + 1) (b' := n + 1) (.DR n) (by simp) (by omega) (by omega) hn (by omega)) ?_
+  refine Tr.cons (T_enl_abs none m e (.DR n)) ?_
+  exact Tr.nil (fun st h => h)
+
+/-- '12site', forward, after a two-site update, `enlarge_bond` false: the site is finished like in '1site' -/
+theorem fwdTwoFalse_ok (N : Nat) (pre : Bool) (n : Nat) (hn : n < N) :
+    Tr N pre (WithAbs (I N pre (n + 1)) (.DL (n + 1))) ([.orth n .last, .upd n .last] ++ updC N (n + 1) ++ [.abs .last])
+      (I N pre (min (n + 2) N)) := by
+  have hs := absSite_bounds N .last (n + 1)
+  have hs2 : min (n + 2) N ≤ absSite N .last (n + 1) + 1 := by
+    rcases Nat.lt_or_ge (n + 1) N with e | e
+    · rw [absSite_last_lt N (n + 1) e]; omega
+    · omega
+  have hs3 : absSite N .last (n + 1) + 1 ≤ min (n + 2) N := by
+    rcases Nat.lt_or_ge (n + 1) N with e | e
+    · rw [absSite_last_lt N (n + 1) e]; omega
+    · rw [absSite_last_ge N (n + 1) e]; omega
+  have t1 : Tr N pre (WithAbs (I N pre (n + 1)) (.DL (n + 1))) [.orth n .last]
+      (S N pre (n + 1) (n + 1) (n + 2) (n + 1) (some (n + 1))) :=
+    (Tr.ofEv (T_orth_abs n .last (.DL (n + 1)) (a' := n + 1) (b' := n + 1) (ad' := n + 1) (bd' := n + 1)
+      (by omega) (by omega) (by omega) (by omega))).weaken (fun st h => h) (fun st h => absL_extend h)
+  have t2 : Tr N pre (S N pre (n + 1) (n + 1) (n + 2) (n + 1) (some (n + 1))) [.upd n .last]
+      (S N pre (n + 2) (n + 1) (n + 2) (n + 1) (some (n + 1))) :=
+    Tr.ofEv (T_updLast (some (n + 1)) n (a' := n + 2) (by omega) (by omega) (by omega))
+  have t3 : Tr N pre (S N pre (n + 2) (n + 1) (n + 2) (n + 1) (some (n + 1))) (updC N (n + 1)) _ :=
+    updC_ok N pre (n + 1) (by omega) (by omega) (by omega)
+  have t4 : Tr N pre (S N pre (n + 2) (n + 1) (n + 2) (n + 1) (some (n + 1))) [.abs .last] (I N pre (min (n + 2) N)) :=
+    Tr.ofEv (T_abs .last (n + 1) (by omega) (by omega) (by omega) (by omega))
+  exact Tr.append (Tr.append (Tr.append t1 t2) t3) t4
+
+theorem bwdTwoFalse_ok (N : Nat) (pre : Bool) (n : Nat) (hn : n < N) :
+    Tr N pre (WithAbs (I N pre (n + 1)) (.DR n)) ([.orth n .first, .upd n .first] ++ updC N n ++ [.abs .first])
+      (I N pre (max n 1)) := by
+  have hs := absSite_bounds N .first n
+  have hs3 : absSite N .first n + 1 ≤ max n 1 := by
+    rcases Nat.lt_or_ge 0 n with e | e
+    · rw [absSite_first_pos N n e]; omega
+    · have : n = 0 := by omega
+      subst this; simp [absSite]
+  have t1 : Tr N pre (WithAbs (I N pre (n + 1)) (.DR n)) [.orth n .first]
+      (S N pre (n + 1) (n + 1) (n + 1) n (some n)) :=
+    (Tr.ofEv (T_orth_abs n .first (.DR n) (a' := n + 1) (b' := n + 1) (ad' := n + 1) (bd' := n + 1)
+      (by omega) (by omega) (by omega) (by omega))).weaken (fun st h => h) (fun st h => absR_extend h rfl)
+  have t2 : Tr N pre (S N pre (n + 1) (n + 1) (n + 1) n (some n)) [.upd n .first]
+      (S N pre (n + 1) n (n + 1) n (some n)) :=
+    Tr.ofEv (T_updFirst (some n) n (b' := n) (by omega) (by omega) hn (by omega))
+  have t3 : Tr N pre (S N pre (n + 1) n (n + 1) n (some n)) (updC N n) _ :=
+    updC_ok N pre n (by omega) (by omega) (by omega)
+  have t4 : Tr N pre (S N pre (n + 1) n (n + 1) n (some n)) [.abs .first] (I N pre (max n 1)) :=
+    Tr.ofEv (T_abs .first n (by omega) (by omega) (by omega) (by omega))
+  exact Tr.append (Tr.append (Tr.append t1 t2) t3) t4
+
+theorem enlOut_true' {N m : Nat} {o : List Bool} (h : (enlOut N m o).1 = true) : m ≠ 0 ∧ m < N := by
+  cases o with
+  | nil => simp [enlOut] at h
+  | cons b o' =>
+    simp only [enlOut] at h
+    split at h
+    · simp at h
+    · omega
+
+theorem fwd12_ok (N : Nat) (pre : Bool) : ∀ (k n : Nat) (two : Bool) (o : List Bool), n + k = N → (two = true → 1 ≤ n) →
+    Tr N pre (if two then I N pre n else I N pre (min (n + 1) N)) (tdvp12Fwd N k two o).1 (I N pre N) := by
+  intro k
+  induction k with
+  | zero =>
+    intro n two o hn _
+    have : n = N := by omega
+    subst this
+    cases two
+    · simp only [tdvp12Fwd, Bool.false_eq_true, ↓reduceIte]
+      have e : min (n + 1) n = n := by omega
+      rw [e]; exact Tr.nil (fun st h => h)
+    · simp only [tdvp12Fwd, ↓reduceIte]; exact Tr.nil (fun st h => h)
+  | succ k ih =>
+    intro n two o hn htwo
+    have hN : N - (k + 1) = n := by omega
+    rcases hE : enlOut N (n + 1) o with ⟨e, o1⟩
+    have he : e = true → n + 1 < N := by
+      intro h; have := enlOut_true' (N := N) (m := n + 1) (o := o) (by rw [hE]; exact h); exact this.2
+    have emin : min (n + 1) N = n + 1 := by omega
+    cases two with
+    | false =>
+      simp only [Bool.false_eq_true, ↓reduceIte, emin]
+      cases e with
+      | true =>
+        rcases hR : tdvp12Fwd N k true o1 with ⟨rest, o2⟩
+        have r := ih (n + 1) true o1 (by omega) (by intro _; omega)
+        rw [hR] at r
+        simp only [↓reduceIte] at r
+        simp only [tdvp12Fwd, hN, hE, Bool.not_false, ↓reduceIte, hR]
+        exact Tr.cons (T_enl none (n + 1) true) r
+      | false =>
+        rcases hR : tdvp12Fwd N k false o1 with ⟨rest, o2⟩
+        have r := ih (n + 1) false o1 (by omega) (by intro h; cases h)
+        rw [hR] at r
+        simp only [Bool.false_eq_true, ↓reduceIte] at r
+        simp only [tdvp12Fwd, hN, hE, Bool.not_false, ↓reduceIte, hR, Bool.false_eq_true]
+        exact Tr.cons (T_enl none (n + 1) false) (Tr.append (tdvp1_last N pre n (by omega)) r)
+    | true =>
+      obtain ⟨n', rfl⟩ : ∃ n', n = n' + 1 := ⟨n - 1, by have := htwo rfl; omega⟩
+      simp only [↓reduceIte]
+      have head := aaLastZ_ok N pre n' (n' + 1 + 1) e (by omega)
+      cases e with
+      | true =>
+        rcases hR : tdvp12Fwd N k true o1 with ⟨rest, o2⟩
+        have r := ih (n' + 1 + 1) true o1 (by omega) (by intro _; omega)
+        rw [hR] at r
+        simp only [↓reduceIte] at r
+        simp only [tdvp12Fwd, hN, hE, Bool.not_true, Bool.false_eq_true, ↓reduceIte, hR, Nat.add_sub_cancel]
+        have mid := updA_ok N pre (n' + 1) (n' + 2) .plus (by omega) (by omega) (by have := he rfl; omega)
+        exact Tr.append (Tr.append (head.weaken (fun st h => h) (fun st h => h.1)) mid) r
+      | false =>
+        rcases hR : tdvp12Fwd N k false o1 with ⟨rest, o2⟩
+        have r := ih (n' + 1 + 1) false o1 (by omega) (by intro h; cases h)
+        rw [hR] at r
+        simp only [Bool.false_eq_true, ↓reduceIte] at r
+        simp only [tdvp12Fwd, hN, hE, Bool.not_true, Bool.false_eq_true, ↓reduceIte, hR, Nat.add_sub_cancel]
+        have mid := fwdTwoFalse_ok N pre (n' + 1) (by omega)
+        have := Tr.append (Tr.append head mid) r
+        simpa [List.append_assoc] using this
+
+theorem bwd12_ok (N : Nat) (pre : Bool) : ∀ (k : Nat) (two : Bool) (o : List Bool), k ≤ N → (two = true → k + 1 ≤ N) →
+    Tr N pre (if two then I N pre (k + 1) else I N pre (max k 1)) (tdvp12Bwd N k two o).1 (I N pre 1) := by
+  intro k
+  induction k with
+  | zero =>
+    intro two o _ _
+    cases two
+    · simp only [tdvp12Bwd, Bool.false_eq_true, ↓reduceIte]; exact Tr.nil (fun st h => h)
+    · simp only [tdvp12Bwd, ↓reduceIte]; exact Tr.nil (fun st h => h)
+  | succ k ih =>
+    intro two o hk htwo
+    rcases hE : enlOut N k o with ⟨e, o1⟩
+    have he : e = true → k ≠ 0 := by
+      intro h; have := enlOut_true' (N := N) (m := k) (o := o) (by rw [hE]; exact h); exact this.1
+    have emax : max (k + 1) 1 = k + 1 := by omega
+    cases two with
+    | false =>
+      simp only [Bool.false_eq_true, ↓reduceIte, emax]
+      cases e with
+      | true =>
+        rcases hR : tdvp12Bwd N k true o1 with ⟨rest, o2⟩
+        have r := ih true o1 (by omega) (by intro _; omega)
+        rw [hR] at r
+        simp only [↓reduceIte] at r
+        simp only [tdvp12Bwd, hE, Bool.not_false, ↓reduceIte, hR]
+        exact Tr.cons (T_enl none k true) r
+      | false =>
+        rcases hR : tdvp12Bwd N k false o1 with ⟨rest, o2⟩
+        have r := ih false o1 (by omega) (by intro h; cases h)
+        rw [hR] at r
+        simp only [Bool.false_eq_true, ↓reduceIte] at r
+        simp only [tdvp12Bwd, hE, Bool.not_false, ↓reduceIte, hR, Bool.false_eq_true]
+        exact Tr.cons (T_enl none k false) (Tr.append (tdvp1_first N pre k (by omega)) r)
+    | true =>
+      simp only [↓reduceIte]
+      have hk2 : k + 1 < N := by have := htwo rfl; omega
+      have head := aaFirstZ_ok N pre k k e hk2
+      cases e with
+      | true =>
+        rcases hR : tdvp12Bwd N k true o1 with ⟨rest, o2⟩
+        have r := ih true o1 (by omega) (by intro _; omega)
+        rw [hR] at r
+        simp only [↓reduceIte] at r
+        simp only [tdvp12Bwd, hE, Bool.not_true, Bool.false_eq_true, ↓reduceIte, hR]
+        have mid := updA_ok N pre k (k + 1) .plus (by omega) (by omega) (by omega)
+        exact Tr.append (Tr.append (head.weaken (fun st h => h) (fun st h => h.1)) mid) r
+      | false =>
+        rcases hR : tdvp12Bwd N k false o1 with ⟨rest, o2⟩
+        have r := ih false o1 (by omega) (by intro h; cases h)
+        rw [hR] at r
+        simp only [Bool.false_eq_true, ↓reduceIte] at r
+        simp only [tdvp12Bwd, hE, Bool.not_true, Bool.false_eq_true, ↓reduceIte, hR]
+        have mid := bwdTwoFalse_ok N pre k (by omega)
+        have := Tr.append (Tr.append head mid) r
+        simpa [List.append_assoc] using this
+
+theorem tdvp12Sweep_ok (N : Nat) (pre : Bool) (hN : 1 ≤ N) (o : List Bool) :
+    Tr N pre (B N pre) (tdvp12Sweep N o).1 (B N pre) := by
+  rcases hA : tdvp12Fwd N N false o with ⟨a, o1⟩
+  rcases hB : tdvp12Bwd N N false o1 with ⟨b, o2⟩
+  have up := fwd12_ok N pre N 0 false o (by omega) (by intro h; cases h)
+  have down := bwd12_ok N pre N false o1 (by omega) (by intro h; cases h)
+  rw [hA] at up
+  rw [hB] at down
+  have e1 : min (0 + 1) N = 1 := by omega
+  have e2 : max N 1 = N := by omega
+  simp only [Bool.false_eq_true, ↓reduceIte, e1, e2] at up down
+  simp only [tdvp12Sweep, hA, hB]
+  exact Tr.append (Tr.append (up.weaken (fun st h => B_to_I1 h) (fun st h => h)) down) (closeSweep_ok N pre hN)
+
+theorem tdvpSweep_ok (N : Nat) (pre : Bool) (hN : 1 ≤ N) (m : Method) (o : List Bool) :
+    Tr N pre (B N pre) (tdvpSweep m N o).1 (B N pre) := by
+  cases m with
+  | one => exact tdvp1Sweep_ok N pre hN
+  | two => exact tdvp2Sweep_ok N pre hN
+  | onetwo => exact tdvp12Sweep_ok N pre hN o
+
+theorem tdvpSweeps_ok (N : Nat) (pre : Bool) (hN : 1 ≤ N) (m : Method) : ∀ (k : Nat) (o : List Bool),
+    Tr N pre (B N pre) (tdvpSweeps m N k o) (B N pre) := by
+  intro k
+  induction k with
+  | zero => intro o; exact Tr.nil (fun st h => h)
+  | succ k ih =>
+    intro o
+    rcases hA : tdvpSweep m N o with ⟨a, o1⟩
+    have h1 := tdvpSweep_ok N pre hN m o
+    rw [hA] at h1
+    simp only [tdvpSweeps, hA]
+    exact Tr.append h1 (ih o1)
+
+theorem tdvpTrace_ok (N : Nat) (pre : Bool) (hN : 1 ≤ N) (m : Method) (k : Nat) (o : List Bool) :
+    Tr N pre (S N pre 1 N 1 0 none) (tdvpTrace m N k o) (B N pre) := by
+  unfold tdvpTrace
+  exact Tr.append (setup_ok N pre) (tdvpSweeps_ok N pre hN m k o)
+
+/-! ### the canonisation prefix of `dmrg_` (executed before the environment is used) -/
+
+def F0 (N : Nat) : Key → Option Stamp := fun k => if k = .L 0 ∨ k = .R N then some [] else none
+
+/-- only the two edge environments exist, no central block -/
+def J (N : Nat) (st : St) : Prop := st.F = F0 N ∧ st.pC = none
+
+theorem J_init (N : Nat) (canon : Bool) : J N (init N canon) := ⟨rfl, rfl⟩
+
+theorem J_S {N pre st} (h : J N st) : S N pre 1 N 1 0 none st := by
+  obtain ⟨hF, hp⟩ := h
+  refine ⟨⟨?_, ?_, ?_, ?_, ?_, ?_, ?_, ?_, ?_⟩, hp⟩
+  · intro m hm; have : m = 0 := by omega
+    subst this; simp [FreshK, hF, F0, expect_L_zero]
+  · intro m hm hN; have : m = N := by omega
+    subst this; simp [FreshK, hF, F0, expect_R_N]
+  · intro m _ hp; simp [hF, F0] at hp
+  · intro m _ _ hp; simp [hF, F0] at hp
+  · simp [FreshK, hF, F0, expect_L_zero]
+  · simp [FreshK, hF, F0, expect_R_N]
+  · intro hp; simp [hF, F0] at hp
+  · intro hp; simp [hF, F0] at hp
+  · intro _ m; simp [hF, F0]
+
+theorem canonize_ok (N : Nat) (pre : Bool) : Tr N pre (J N) (canonizeFirst N) (J N) := by
+  unfold canonizeFirst
+  have first : Ev1 N pre (J N) (.abs .first) (J N) := by
+    intro st ⟨hF, hp⟩
+    have : next N pre st (.abs .first) = st := by simp [next, applyRaw, effOf, hp]
+    rw [this]
+    exact ⟨by simp [okEv, applyRaw, effOf, hp], hF, hp⟩
+  have step : ∀ n, Tr N pre (J N) [.orth n .first, .abs .first] (J N) := by
+    intro n
+    refine Tr.cons (R := fun st => st.F = F0 N ∧ st.pC = some n) ?_ (Tr.cons ?_ (Tr.nil (fun st h => h)))
+    · intro st ⟨hF, hp⟩
+      obtain ⟨ok, _, hF', hp'⟩ := E_orth N pre st n .first
+      exact ⟨by rw [ok, hp]; rfl, by rw [hF', hF], hp'⟩
+    · intro st ⟨hF, hp⟩
+      obtain ⟨ok, _, hF', hp'⟩ := E_abs N pre st .first n hp
+      exact ⟨ok, by rw [hF', hF], hp'⟩
+  exact Tr.cons first (Tr.loopDown (N := N) (pre := pre) (fun _ => J N) (fun n => [.orth n .first, .abs .first]) N
+    (fun i _ => step i))
 
 end YModel.Sched
